@@ -70,6 +70,10 @@ if TYPE_CHECKING:
     from .connection import SSHServerConnection
 
 
+# Largest channel data packet (leaves room for the packet header, padding
+# and MAC under the 256 KiB limit on SSH packets in connection.py)
+_MAX_PKTSIZE = 255*1024
+
 _const_dict: Mapping[str, int] = constants.__dict__
 _pty_mode_names = get_symbol_names(_const_dict, 'PTY_', 4)
 _data_type_names = get_symbol_names(_const_dict, 'EXTENDED_DATA_', 14)
@@ -133,7 +137,7 @@ class SSHChannel(Generic[AnyStr], SSHPacketHandler):
         self._recv_state = 'closed'
         self._init_recv_window = window
         self._recv_window = window
-        self._recv_pktsize = max_pktsize
+        self._recv_pktsize = min(max_pktsize, _MAX_PKTSIZE)
         self._recv_paused: Union[bool, str] = 'starting'
         self._recv_buf: List[Tuple[bytes, DataType]] = []
 
@@ -303,7 +307,8 @@ class SSHChannel(Generic[AnyStr], SSHPacketHandler):
         """Flush as much data in send buffer as the send window allows"""
 
         while self._send_buf and self._send_window:
-            pktsize = min(self._send_window, self._send_pktsize)
+            pktsize = min(self._send_window, self._send_pktsize,
+                          _MAX_PKTSIZE)
             buf, datatype = self._send_buf[0]
 
             if len(buf) > pktsize:
